@@ -31,6 +31,7 @@ class LoopSpec:
     inv: list                            # [(name, lambda ctx -> Bool)]
     note: str = ""
     extra_havoc: list = field(default_factory=list)
+    modifies: list | None = None         # heap fields (last path component) the body may change; None = the whole function frame
 
 
 @dataclass
